@@ -62,7 +62,7 @@ func raceChains() []raceChain {
 }
 
 var raceRe = regexp.MustCompile(`(?s)WARNING: DATA RACE\n(.*?)\n==================`)
-var frameRe = regexp.MustCompile(`\n\s+(github\.com/johnkerl/miller/v6/pkg/[^\s(]+)\(`)
+var frameRe = regexp.MustCompile(`\n\s+(github\.com/johnkerl/miller/v6/pkg/\S+?)\(\)\n`)
 
 func raceWorker(w *vf.Worker) {
 	logBase := os.Getenv("VERIF_RACE_LOG")
@@ -110,7 +110,7 @@ func raceWorker(w *vf.Worker) {
 		logs := readLogs()
 		seen := map[string]bool{}
 		for _, m := range raceRe.FindAllStringSubmatch(logs, -1) {
-			frames := frameRe.FindAllStringSubmatch("\n"+m[1], 3)
+			frames := frameRe.FindAllStringSubmatch("\n"+m[1]+"\n", 3)
 			var top []string
 			for _, f := range frames {
 				top = append(top, strings.TrimPrefix(f[1], "github.com/johnkerl/miller/v6/pkg/"))
